@@ -753,3 +753,27 @@ Theorem step_after_ul_sees_that_step pb s d nt b stop log :
   let r := fst (dispatchp pb (Step nt) (fst (dispatchp pb (UL s d) (Rec b stop log)))) in
   exists b', r = Rec b' stop (log ++ [mkE 2 (b_calls b + 1) nt s]).
 Proof. cbn. eexists. reflexivity. Qed.
+
+(* ------------------------------------------------------------------ model mutation score: pins *)
+
+(* a first learn(reset_num_timesteps=False) on a fresh model starts at num_timesteps = 0 and env-step stamp 0
+   (init_dst), and the observation function shows StopTrainingOnMaxEpisodes as (5, n_calls, num_timesteps, [(8, 0, 0, n_episodes)]) *)
+Example init_and_show_pins :
+  run_case 2 (OnPol 2) [mkCall 4 false [0; 1]] (clist [rec_ 0; maxep 1 2]) =
+  ([[(0, 0, 0, true); (1, 0, 0, true); (9, 1, 0, true); (2, 2, 0, true); (9, 2, 1, true); (2, 4, 0, true); (3, 0, 0, true); (4, 0, 0, true)]],
+   [(1, 2, 4, []);
+    (0, 2, 4, [(0, 0, 0, -1); (1, 0, 0, -1); (2, 1, 2, 1); (2, 2, 4, 2); (3, 2, 4, 2); (4, 2, 4, 2)]);
+    (5, 2, 4, [(8, 0, 0, 1)])],
+   (4, 2, false)).
+Proof. vm_compute. reflexivity. Qed.
+
+(* the rollout loop counts env steps and finished episodes upwards: train_freq = (2, "episode") with dones 0,1,0,1 | 0,0,1,1
+   gives two rollouts of four steps; train_freq = (3, "step") gives rollouts of three steps *)
+Example rollout_counters_pins :
+  (let r := learns 50 50 1 (OffEpis 2) [mkCall 5 true [0; 1; 0; 1; 0; 0; 1; 1]] (init_dst Nop) in
+   map (fun tr => map (fun e => fst (fst (fst (ev_code e)))) tr) (snd r) =
+     [[0; 1; 9; 2; 9; 2; 9; 2; 9; 2; 3; 1; 9; 2; 9; 2; 9; 2; 9; 2; 3; 4]] /\ d_nt (fst r) = 8 /\ d_exh (fst r) = false) /\
+  (let r := learns 50 50 1 (OffStep 3) [mkCall 5 true []] (init_dst Nop) in
+   map (fun tr => map (fun e => fst (fst (fst (ev_code e)))) tr) (snd r) =
+     [[0; 1; 9; 2; 9; 2; 9; 2; 3; 1; 9; 2; 9; 2; 9; 2; 3; 4]] /\ d_nt (fst r) = 6 /\ d_exh (fst r) = false).
+Proof. vm_compute. repeat split; reflexivity. Qed.
